@@ -88,7 +88,7 @@ pub fn vec_extend(a: &mut Vec<Identifier>, b: Vec<Identifier>)
     ensures final(a)@ == old(a)@ + b@,
 { a.extend(b) }
 
-// ---------- Shiftable for AstInfo / Identifier (verified) and Vec<Identifier> (iterator code: assumed)
+// ---------- Shiftable for AstInfo / Identifier / Vec<Identifier> (the latter with its `map` behind the iterator shim)
 //@extract spl_frontend/src/ast.rs :: impl Shiftable for AstInfo
 //@ open
     open spec fn shift_ok(self, offset: usize) -> bool { range_fits(self.range, offset as int) }
@@ -99,17 +99,29 @@ pub fn vec_extend(a: &mut Vec<Identifier>, b: Vec<Identifier>)
     open spec fn shift_ok(self, offset: usize) -> bool { range_fits(self.info.range, offset as int) }
     open spec fn shifted(self, offset: usize, r: Self) -> bool { r == id_plus(self, offset as int) }
 //@end
-//~assume `impl Shiftable for Vec<Identifier>` (ast.rs: into_iter().map(shift).collect()) displaces every identifier and keeps order (iterator adapters are outside Verus)
+//~assume `v.into_iter().map(f).collect()` applies f to every element in order (std iterator semantics; R6)
+#[verifier::external_body]
+pub fn vec_map_collect<F: Fn(Identifier) -> Identifier>(v: Vec<Identifier>, f: F) -> (r: Vec<Identifier>)
+    requires forall|i: int| 0 <= i < v@.len() ==> call_requires(f, (#[trigger] v@[i],)),
+    ensures r@.len() == v@.len(), forall|i: int| 0 <= i < v@.len() ==> call_ensures(f, (v@[i],), #[trigger] r@[i]),
+{ v.into_iter().map(f).collect() }
 //@extract spl_frontend/src/ast.rs :: impl Shiftable for Vec<Identifier>
+//@ rewrite map_collect
 //@ open
     open spec fn shift_ok(self, offset: usize) -> bool { ids_fit(self@, offset as int) }
     open spec fn shifted(self, offset: usize, r: Self) -> bool { r@ == ids_plus(self@, offset as int) }
-//@ attr fn shift
-    #[verifier::external_body]
+//@ closure |ident| : Identifier
+ -> (out: Identifier)
+            requires range_fits(ident.info.range, offset as int),
+            ensures out == id_plus(ident, offset as int)
+//@ before "vec_map_collect(self"
+let r_ = 
+//@ at_end fn shift
+; proof { assert(r_@ =~= ids_plus(self@, offset as int)); } r_
 //@end
 
 // ---------- code under contract
-//~not_decided which procedure find_vars looks into (filter_map/find over the global declarations), find_procs, the body of find_types, conversion to TextEdits, prepare-rename (async handlers), binding/scoping (LookupTable/HashMap): "occurrences of one binding" is decided for the statements of one procedure, not across declarations
+//~not_decided termination of the recursive walks beyond what `decreases` states; the scoping dispatch and the handlers are in unit `refdispatch`, the cursor in unit `cursor`
 //@extract lsp4spl/src/features/references.rs :: fn find_vars :: fn find_in_variable
 //@ rewrite string_eq_str vec_extend
 //@ ret r
